@@ -69,6 +69,16 @@ fn worker(sh: Arc<TShared>, mut rng: u64) {
             let mode = xs(&mut rng) % 6;
             let restale = !stale.is_empty() && xs(&mut rng) % 3 == 0;
             let si = if stale.is_empty() { 0 } else { (xs(&mut rng) % stale.len() as u64) as usize };
+            if !cfg!(miri) && sh.rdv.load(Ordering::Relaxed) {
+                let g0 = sh.go.load(Ordering::Acquire);
+                sh.about.fetch_add(1, Ordering::Release);
+                for _ in 0..4000 {
+                    if sh.go.load(Ordering::Acquire) != g0 {
+                        break;
+                    }
+                    std::hint::spin_loop();
+                }
+            }
             IN_WAKE.store(true, Ordering::Relaxed);
             let r = std::panic::catch_unwind(std::panic::AssertUnwindSafe(|| {
                 match mode {
@@ -176,7 +186,12 @@ pub fn run_case(p: &Profile, case: &CaseA, case_seed: u64, nthreads: usize) -> E
             let seed = crate::mix(case_seed, 0x7EAD + k as u64);
             s.spawn(move || worker(sh2, seed));
         }
-        let mut spurious_left = case.spurious;
+        // "storm" executions: the task keeps polling (spuriously, with a fresh waker each time) while other threads are
+        // in the middle of wake() — the window in which a check-then-act race in the wake path loses a wake-up
+        let storm = w(|w| w.chance(50));
+        sh.rdv.store(storm, Ordering::Relaxed);
+        let mut seen_about = 0usize;
+        let mut spurious_left = if storm { 24 } else { case.spurious };
         let mut steps = 0usize;
         let mut polls = 0usize;
         let mut epoch = 0usize;
@@ -206,10 +221,27 @@ pub fn run_case(p: &Profile, case: &CaseA, case_seed: u64, nthreads: usize) -> E
                 if quiescent {
                     break; // thread-quiescent and nobody woke the task
                 }
-                if spurious_left > 0 && w(|w| w.chance(15)) {
+                let mut rendezvous = false;
+                if storm && spurious_left > 0 && !cfg!(miri) {
+                    // wait (briefly, spinning) for a firing thread to announce its wake() call, then poll at once
+                    for _ in 0..3000 {
+                        let a = sh.about.load(Ordering::Acquire);
+                        if a != seen_about {
+                            seen_about = a;
+                            rendezvous = true;
+                            break;
+                        }
+                        std::hint::spin_loop();
+                    }
+                }
+                if rendezvous || (spurious_left > 0 && w(|w| w.chance(15))) {
                     spurious = true;
                     spurious_left -= 1;
                     w(|w| w.st.spurious_polls += 1);
+                    if rendezvous {
+                        w(|w| w.st.thread_rendezvous += 1);
+                        sh.go.fetch_add(1, Ordering::Release);
+                    }
                 } else {
                     // wait for a wake-up of the current root waker or for thread-quiescence (logical condition;
                     // the timeout only bounds one wait so that a stall is seen by the process watchdog)
